@@ -126,7 +126,7 @@ def cases(prop, tier, seed):
   # --- singleton pool
   for w in _words(S_ALPHA, 4 if quick else 6, _s_ok):
     out.append({'kind': 'singleton', 'ops': _with_q(w)})
-  for _ in range(900 if quick else 25000):
+  for _ in range(900 if quick else 15000):
     n = rng.randint(4, 9)
     w = []
     for _ in range(n):
@@ -146,7 +146,7 @@ def cases(prop, tier, seed):
   for w in _words(alpha, 3 if quick else 4, lambda w: w[0][0] == 'G'):
     out.append({'kind': 'refcounted', 'mode': 'provider', 'ops': _with_q(w)})
   alpha3 = [['G', h, k] for h in (1, 2, 3) for k in (1, 2)] + [[x, h] for x in ('O', 'O', 'C', 'C', 'X') for h in (1, 2, 3)]
-  for _ in range(600 if quick else 15000):
+  for _ in range(600 if quick else 8000):
     n = rng.randint(4, 10)
     w = [['G', rng.randint(1, 3), rng.randint(1, 2)]] + [rng.choice(alpha3 + ['K', 'F', 'D']) for _ in range(n)]
     out.append({'kind': 'refcounted', 'mode': 'provider', 'ops': _rand_sched(rng, w)})
@@ -595,7 +595,7 @@ def replay_behaviours(prop, tier, seed):
   _preload()
   quick = tier == 'quick'
   traces, drift, steps, nbeh = [], [], 0, 0
-  for module, cfg, num, depth in (('SingletonPool', 'SingletonPool_sim.cfg', 600 if quick else 4000, 40),
+  for module, cfg, num, depth in (('SingletonPool', 'SingletonPool_sim.cfg', 600 if quick else 2500, 40),
                                   ('RefCounted', 'RefCounted_sim.cfg', 200 if quick else 2000, 14)):
     r, behs = tlc.simulate_behaviours(module, cfg, num=num, depth=depth, seed=int(seed) + 1, timeout=900)
     if not behs:
